@@ -93,6 +93,8 @@ def k_equal(l1, alias):
 
 def run(chk):
     prog, base = setup(chk)
+    from .common import state_shape
+    state_shape(chk, prog)
     chk.bounds = ["no bound: symbolic projective coordinates of two valid points; every limb representation via the field contracts"]
     chk.outside = ["GF(p) has no zero divisors; Element.Equal <=> congruence mod p is the C10 contract (re-discharged here: reduce, Bytes, ConstantTimeCompare)"]
     chk.assumptions = ["field calls replaced by ring operations / congruence atoms (contracts discharged in this run)"]
@@ -107,4 +109,5 @@ def run(chk):
 
 
 def safety_net(chk):
-    return equal_battery(chk.seed)
+    from sym import ptreplay
+    return equal_battery(chk.seed) or ptreplay.battery_receiver_history(chk.seed)
